@@ -73,6 +73,19 @@ CLAIMED = {
         "entry written in the same timestamp tick); os.stat of an existing path does not fail during the call; imphooks module cache and "
         "marshal format stability not verified. Two genuine defects found and repaired (fix: cda8cf0). Trusted: pyvc engine + models + z3/cvc5.",
    design="§3 C19"),
+ "C13": dict(
+   category="proof",
+   text="Effect-trace discipline proved for every path (including every exceptional path: each file-system call may fail) of the four "
+        "JSON history rewriters - JsonHistoryFlusher.dump (flush), JsonHistory.delete, JsonHistory.erasedups, JsonHistoryGC.files (unlock): "
+        "an existing history file is never opened for writing in place; every os.replace(tmp, target) has tmp created by mkstemp(dir=dirname("
+        "target)) in this call, completely written (no failed write) and closed; only own temp files are unlinked; writes only go through "
+        "temp handles. Hence every prefix of the trace (any crash point, any single failing call) leaves each file its complete old or new "
+        "version. dump additionally keeps the loaded commands as a prefix of what it stages (commands saved earlier are never lost).",
+   note="Unverified: SQLite backend (transactions / WAL), durability across power loss (no fsync), flush-at-exit / signal handling, "
+        "JsonHistory.clear (discards content by intent; not among the listed operations), the buffer/dedup data computations (abstracted, "
+        "see C12). Atomicity of os.replace and freshness of mkstemp names are assumed (POSIX). One genuine defect found and repaired "
+        "(fix: 1023136). Trusted: pyvc engine + contracts/fsmodel.py event discipline + z3.",
+   design="§3 C13"),
 }
 NA = {
  "C01": "equivalence of two grammars (PLY LALR tables vs CPython's PEG parser) is not a function contract; no contract within reach can express or decide it (DESIGN §3 C01)",
